@@ -182,6 +182,14 @@ func (fr *Frame) applyContract(in ssa.Instruction, callee *ssa.Function, sp *Fun
 			e.check("nil", fr.anchor(in), fr.pc, mkNot(mkEq(args[0].S, "0")), e.posOf(in.Pos()), "nil receiver for "+key)
 		}
 	}
+	for _, r := range sp.Physical {
+		if t, err := env.evalBool(r.E); err == nil {
+			e.assume(mkImp(fr.pc, t))
+			e.flag("physical-assumption: " + r.Src)
+		} else {
+			e.errs = append(e.errs, fmt.Sprintf("%s: %v", r.Line, err))
+		}
+	}
 	for i, r := range sp.Requires {
 		t, err := env.evalBool(r.E)
 		if err != nil {
@@ -197,6 +205,27 @@ func (fr *Frame) applyContract(in ssa.Instruction, callee *ssa.Function, sp *Fun
 			name = e.L.shortName(callee)
 		}
 		e.oblige("pre", fr.prefix+name+"/"+lbl, fr.pc, t, e.posOf(in.Pos()), "precondition of "+key+": "+r.Src)
+	}
+	if e.spec != nil && e.spec.CallPre != nil && callee != nil {
+		for name, cls := range e.spec.CallPre {
+			if name != e.L.shortName(callee) && name != callee.Name() {
+				continue
+			}
+			cenv := e.calleeEnv(callee, sp, args, binds, fr.st, nil)
+			for k, v := range e.params {
+				if _, clash := cenv.vars[k]; !clash {
+					cenv.vars[k] = v
+				}
+			}
+			for i, c := range cls {
+				t, err := cenv.evalBool(c.E)
+				if err != nil {
+					e.errs = append(e.errs, fmt.Sprintf("%s: %v", c.Line, err))
+					continue
+				}
+				e.oblige("callpre", fmt.Sprintf("%s%s/%d", fr.prefix, name, i+1), fr.pc, t, e.posOf(in.Pos()), "call-site condition for "+name+": "+c.Src)
+			}
+		}
 	}
 	old := fr.st.clone()
 	if sp.ModAll {
